@@ -315,6 +315,30 @@ impl Term {
     }
 }
 
+/// What a byte string does to a screen that shows `prompt + text` with the cursor at `cursor`
+/// (rows completed by a line feed, the current row, the column), all rows without trailing blanks.
+#[derive(Clone, Debug, PartialEq, Eq)]
+pub struct Screen {
+    pub done: Vec<String>,
+    pub cur: String,
+    pub col: usize,
+    pub unknown: Option<String>,
+}
+
+pub fn screen_effect(prompt: &str, text: &str, cursor: usize, bytes: &[u8]) -> Screen {
+    let mut t = Term::default();
+    t.line = format!("{}{}", prompt, text).chars().collect();
+    t.col = prompt.chars().count() + cursor;
+    t.keep = true;
+    t.feed_all(bytes);
+    Screen {
+        done: t.done.iter().map(|r| r.trim_end_matches(' ').to_string()).collect(),
+        cur: t.trimmed(),
+        col: t.col,
+        unknown: t.unknown.clone().or(if t.quiescent() { None } else { Some("incomplete sequence".into()) }),
+    }
+}
+
 pub fn trim_blanks(s: &str) -> &str {
     s.trim_end_matches(' ')
 }
